@@ -252,6 +252,7 @@ Inductive phase :=
 | PFg                      (* not stopped yet *)
 | PBgInit                  (* goroutine spawned, nothing done yet *)
 | PBgHead                  (* passed the "already cached / invalidated" checks, about to call Head *)
+| PBgSf                    (* Head did not say Done: about to enter singleflight.Do *)
 | PBgWait (owner : nat)    (* joined another iterator's singleflight call *)
 | PBgLoop                  (* inside its own singleflight call, draining *)
 | PFin.
@@ -435,13 +436,15 @@ Definition bg_step (st : state) (i : nat) (m : miter) : state * out :=
       | RDone =>
           let '(st1, m2) := flush st m1 in
           (set_iter st1 i (IMiss (mi_finish m2)), OBgRes (Some r) true)
-      | _ =>
-          match alist_get (mi_key m) (st_sf st) with
-          | Some owner => (set_iter st i (IMiss (mi_set_phase m1 (PBgWait owner))), OBgRes (Some r) false)
-          | None =>
-              (set_iter (set_sf st ((mi_key m, i) :: st_sf st)) i (IMiss (mi_set_phase m1 PBgLoop)),
-               OBgRes (Some r) false)
-          end
+      | _ => (set_iter st i (IMiss (mi_set_phase m1 PBgSf)), OBgRes (Some r) false)
+      end
+  | PBgSf =>
+      (* sf.Do: join the call in flight for this key, or start one *)
+      match alist_get (mi_key m) (st_sf st) with
+      | Some owner => (set_iter st i (IMiss (mi_set_phase m (PBgWait owner))), OBgRes None false)
+      | None =>
+          (set_iter (set_sf st ((mi_key m, i) :: st_sf st)) i (IMiss (mi_set_phase m PBgLoop)),
+           OBgRes None false)
       end
   | PBgLoop =>
       let '(inn, r) := inner_call true (bg_ctx st m) (mi_inner m) in
@@ -485,7 +488,7 @@ Definition bg_timeout (st : state) (i : nat) (m : miter) : state * out :=
   match mi_var m, mi_phase m with
   | V2, PBgLoop =>
       (set_iter (release_sf st (mi_key m) i) i (IMiss (mi_finish (mi_set_buf m None))), OBgRes None true)
-  | V2, PBgHead =>
+  | V2, PBgHead | V2, PBgSf =>
       (set_iter st i (IMiss (mi_finish (mi_set_buf m None))), OBgRes None true)
   | _, _ => (st, ONone)
   end.
